@@ -161,3 +161,22 @@ func TestC09Fault(t *testing.T) {
 		faultEnumerate(rt, st, "C09", c, RunFault)
 	})
 }
+
+// TestC19Fault: key-only operations read no value byte also when a file call
+// fails and is retried (a "read the whole record instead" retry path would).
+func TestC19Fault(t *testing.T) {
+	st := NewStats("C19", "fault phase: C07's single-fault enumeration (every StoreFile call of a generated history fails once, retry and abandon variants) with the read log on: every ReadAt issued by a key-only op (GetItem/Min/Max/visit without values, Exist, Len, Set, Delete, GetTotals, evictions), before and after the fault, is intersected with the value byte ranges (independent decoder) of everything flushed so far: must be empty. Only that rule is reported here. Non-trivial as in C07.", commonAssumptions)
+	st.Extra["counts_units"] = "evaluations are faulted executions; -rapid.checks counts histories"
+	defer func() {
+		if p := outPath(); p != "" {
+			st.Write(p)
+		}
+	}()
+	gen := GenCase(profLazyFault)
+	rapid.Check(t, func(rt *rapid.T) {
+		c := gen.Draw(rt, "case")
+		c.Cfg.Mem = false
+		c.Ops = append(faultPrelude(rt), c.Ops...)
+		faultEnumerate(rt, st, "C19", c, RunFault)
+	})
+}
